@@ -142,9 +142,10 @@ def gen_bd_diagram(rng, cfg, max_n=6, allow_empty=True):
         elif r < 0.7:     # on a pixel border / region border
             b = b0 + rng.randint(0, max(1, round((b1 - b0) / p))) * p
             pe = max(0.0, p0 + rng.randint(0, max(1, round((p1 - p0) / p))) * p)
-        elif r < 0.85:    # outside
-            b = b0 + rng.choice((-1.5, 1.7)) * (b1 - b0)
-            pe = abs(p1) * rng.choice((1.5, 2.0))
+        elif r < 0.85:    # outside, sometimes far outside relative to the kernel width
+            far = rng.choice((1.0, 1.0, 30.0, 300.0))
+            b = b0 + rng.choice((-1.5, 1.7)) * (b1 - b0) * far
+            pe = abs(p1) * rng.choice((1.5, 2.0)) * rng.choice((1.0, far))
         else:             # zero persistence (zero weight under the persistence weight)
             b = b0 + rng.random() * (b1 - b0)
             pe = 0.0
